@@ -261,6 +261,10 @@ func loaderTolerance(c *an.Ctx, ld *ssa.Function, file string, exposesEmpty bool
 			s := fi.SysFor(ret)
 			emptyExcluded := s.ProveGE(an.LenTerm(data), 1)
 			ioErr := false
+			if h := forwardedHelper(fi, ret); h != nil && !emptyExcluded {
+				// the error of a helper is passed on: every error return of the helper must stem from a file-system error
+				ioErr = errorReturnsAreIO(p, h)
+			}
 			for _, f := range fi.FactsAt(ret) {
 				if !f.Neg && f.T.K == an.KBin && f.T.S == "!=" && strings.Contains(f.T.Key(), "#nil") {
 					// an error of a file-system call
@@ -294,6 +298,17 @@ func reachesNilReturn(fi *an.FuncInfo, from *ssa.BasicBlock) bool {
 				et := fi.Term(ret.Results[len(ret.Results)-1])
 				if k, isC := et.IsConst(); isC && k == "nil" {
 					return true
+				}
+				// the results of a helper are passed on: as good as the helper's own returns
+				if h := forwardedHelper(fi, ret); h != nil {
+					hfi := fi.P.Info(h)
+					for _, hb := range h.Blocks {
+						if len(hb.Instrs) > 0 {
+							if hr, ok := hb.Instrs[len(hb.Instrs)-1].(*ssa.Return); ok && len(hr.Results) > 0 && isConstTerm(hfi.Term(hr.Results[len(hr.Results)-1]), "nil") {
+								return true
+							}
+						}
+					}
 				}
 			}
 		}
@@ -337,4 +352,57 @@ func partialRule(c *an.Ctx, roles map[string]*fileRole, construction map[*ssa.Fu
 	}
 	c.Count("PARTIAL", n)
 	c.Floor("PARTIAL", 2)
+}
+
+// forwardedHelper: the return passes on the error result of a call to a repository helper (return helper(...)).
+func forwardedHelper(fi *an.FuncInfo, ret *ssa.Return) *ssa.Function {
+	if len(ret.Results) == 0 {
+		return nil
+	}
+	et := fi.Term(ret.Results[len(ret.Results)-1])
+	ct := et
+	if et.K == an.KExt && len(et.A) == 1 {
+		ct = et.A[0]
+	}
+	if call, ok := ct.Val.(*ssa.Call); ok && (ct.K == an.KCall || ct.K == an.KPure) {
+		if sc := call.Call.StaticCallee(); sc != nil && an.IsRepoFunc(sc) && sc.Pkg == fi.Fn.Pkg {
+			return sc
+		}
+	}
+	return nil
+}
+
+// errorReturnsAreIO: every return of fn with a non-nil error is dominated by the failure of a file-system call.
+func errorReturnsAreIO(p *an.Program, fn *ssa.Function) bool {
+	fi := p.Info(fn)
+	for _, b := range fn.Blocks {
+		if len(b.Instrs) == 0 || b == fn.Recover {
+			continue
+		}
+		ret, ok := b.Instrs[len(b.Instrs)-1].(*ssa.Return)
+		if !ok || len(ret.Results) == 0 {
+			continue
+		}
+		if isConstTerm(fi.Term(ret.Results[len(ret.Results)-1]), "nil") {
+			continue
+		}
+		io := false
+		for _, f := range fi.FactsAt(ret) {
+			if !f.Neg && f.T.K == an.KBin && f.T.S == "!=" && strings.Contains(f.T.Key(), "#nil") {
+				for _, a := range f.T.A {
+					callee := a.Callee()
+					if a.K == an.KExt {
+						callee = a.A[0].Callee()
+					}
+					if strings.HasPrefix(callee, "os.") || strings.HasPrefix(callee, "io/ioutil.") || strings.HasPrefix(callee, "(*os.File)") {
+						io = true
+					}
+				}
+			}
+		}
+		if !io {
+			return false
+		}
+	}
+	return true
 }
